@@ -216,6 +216,7 @@ def report(pid, tier, seed, results, lemma_res, extra_results, checker_errors, t
     for ob in extra_results:
         all_obs.append(dict(ob))
     per_fn_count = {}
+    dead_paths = {}
     for ob in all_obs:
         obligations += 1
         per_fn_count[ob.get("function")] = per_fn_count.get(ob.get("function"), 0) + 1
@@ -234,12 +235,17 @@ def report(pid, tier, seed, results, lemma_res, extra_results, checker_errors, t
             else:
                 violations.append(ob)
         elif st == "vacuous":
-            checker_errors.append("%s %s: assumptions are unsatisfiable (vacuous)" % (ob.get("function"), ob["name"]))
+            # the path's assumptions are contradictory once the sum lemmas are applied: dead code under the contract.
+            # It is an error only if a function has no live path at all (then every obligation would hold vacuously).
+            dead_paths.setdefault(ob.get("function"), []).append(ob["name"])
+            discharged += 1
         else:
             undecided.append(ob)
     for r in results:
         if not r["error"] and per_fn_count.get(r["function"], 0) == 0:
             checker_errors.append("%s: zero obligations generated" % r["function"])
+        if r["paths"] and len(dead_paths.get(r["function"], [])) >= r["paths"]:
+            checker_errors.append("%s: every path has unsatisfiable assumptions (vacuous contract)" % r["function"])
     if not results and not extra_results:
         checker_errors.append("no contract or check is registered for property %s" % pid)
     # samples: a few obligations written out
@@ -291,6 +297,7 @@ def report(pid, tier, seed, results, lemma_res, extra_results, checker_errors, t
             backends=backends,
             solver_seconds=round(solver_s, 2),
             known_findings_reported=[f.get("what") for f, _ in known_hit],
+            dead_paths=dead_paths,
             undecided=[dict(function=u.get("function"), name=u["name"], status=u["status"]) for u in undecided],
             refuted=[dict(function=o.get("function"), name=o["name"], replay_verdict=(o.get("replay") or {}).get("verdict")) for o in violations],
             explanation="every obligation generated from the current source of the functions under contract, one SMT query each (plus lemma side proofs)",
